@@ -1659,6 +1659,48 @@ func c11SourceField(v ssa.Value, depth int) (*types.Var, *types.Named) {
 				return f, t
 			}
 		}
+	case *ssa.Call:
+		// a helper that is handed the source node and hands back (what it makes of) one of its fields:
+		// `f := runInfo.resolveCallFunc(callExpr)` returning callExpr.Func, or the value bound to its name
+		if callee := staticCallee(x); callee != nil && len(callee.Blocks) > 0 && callee.Signature.Results().Len() == 1 {
+			for _, b := range callee.Blocks {
+				ret, ok := b.Instrs[len(b.Instrs)-1].(*ssa.Return)
+				if !ok || len(ret.Results) != 1 {
+					continue
+				}
+				var back func(v ssa.Value, d int) (*types.Var, *types.Named)
+				back = func(v ssa.Value, d int) (*types.Var, *types.Named) {
+					if d > 5 {
+						return nil, nil
+					}
+					if f, t := c11SourceField(v, depth+1); f != nil {
+						if u, ok := v.(*ssa.UnOp); ok {
+							if sfa, ok := u.X.(*ssa.FieldAddr); ok {
+								if _, isPar := sfa.X.(*ssa.Parameter); isPar {
+									return f, t
+								}
+							}
+						}
+					}
+					switch y := v.(type) {
+					case *ssa.Phi:
+						for _, e := range y.Edges {
+							if f, t := back(e, d+1); f != nil {
+								return f, t
+							}
+						}
+					case *ssa.Call:
+						if reflectMethod(y) == "Elem" {
+							return back(y.Call.Args[0], d+1)
+						}
+					}
+					return nil, nil
+				}
+				if f, t := back(ret.Results[0], 0); f != nil {
+					return f, t
+				}
+			}
+		}
 	}
 	return nil, nil
 }
